@@ -121,7 +121,11 @@ func minimize(t *testing.T, c *Case, v Violation, progress *atomic.Int64, budget
 	for round := 0; round < 3 && m.runs < m.budget; round++ {
 		changed := false
 		// 2. ops
-		for i := len(cur.Ops) - 1; i >= 0 && len(cur.Ops) > 1; i-- {
+		firstDroppable := 0
+		if cur.Scen == "multi" || cur.Scen == "history" || cur.Scen == "concurrent" {
+			firstDroppable = 1 // Ops[0] is the base / carries the engine options
+		}
+		for i := len(cur.Ops) - 1; i >= firstDroppable && len(cur.Ops) > 1; i-- {
 			if try(func(d *Case) bool { d.Ops = append(d.Ops[:i:i], d.Ops[i+1:]...); return true }) {
 				changed = true
 			}
@@ -169,7 +173,7 @@ func minimize(t *testing.T, c *Case, v Violation, progress *atomic.Int64, budget
 				},
 				func(d *Case) bool {
 					o := &d.Ops[oi]
-					if o.Eng.Optim == "none" {
+					if o.Eng.Optim == "none" || d.Scen == "multi" {
 						return false
 					}
 					o.Eng.Optim = "none"
@@ -250,7 +254,22 @@ func minimize(t *testing.T, c *Case, v Violation, progress *atomic.Int64, budget
 				},
 			}
 			for _, k := range knobs {
-				for try(k) {
+				k := k
+				sk := func(d *Case) bool {
+					if !k(d) {
+						return false
+					}
+					if d.Scen == "multi" {
+						// the variants of a multi case share query, window and lookbacks
+						src := d.Ops[oi]
+						for j := range d.Ops {
+							d.Ops[j].Start, d.Ops[j].End, d.Ops[j].Step = src.Start, src.End, src.Step
+							d.Ops[j].QLookbackMs, d.Ops[j].Eng.LookbackMs = src.QLookbackMs, src.Eng.LookbackMs
+						}
+					}
+					return true
+				}
+				for try(sk) {
 					changed = true
 				}
 			}
@@ -375,7 +394,18 @@ func minimize(t *testing.T, c *Case, v Violation, progress *atomic.Int64, budget
 				if m.runs >= m.budget {
 					break
 				}
-				if try(func(d *Case) bool { d.Ops[oi].Q = q; return true }) {
+				if try(func(d *Case) bool {
+					old := d.Ops[oi].Q
+					d.Ops[oi].Q = q
+					if d.Scen == "multi" {
+						for j := range d.Ops {
+							if d.Ops[j].Q == old {
+								d.Ops[j].Q = q
+							}
+						}
+					}
+					return true
+				}) {
 					changed = true
 					goto again
 				}
